@@ -39,6 +39,163 @@ theorem formatLabel_ok (k v : List Char) (hk : k ≠ []) :
     LabelOk (sanitizeLabelKey k, sanitizeLabelValue v) :=
   ⟨by simp [formatLabel, labelStr], label_key_grammar k hk, escape_wf_value v⟩
 
+/-! ## 2b. escaping does not depend on the length of the string
+
+The escaper is a one-bit transducer: what it writes for a character depends on that character and on
+`previous_backslash` only — not on the position, not on how much has been written, not on what follows.  Hence
+there is no length at which it behaves differently (no cap, no truncation, no buffer boundary), and the escape
+of a long string is the concatenation of the pieces written for its parts. -/
+
+/-- one round of the loop of `sanitize_label_value_or_description`: the new `previous_backslash` and the text
+    pushed in this round -/
+def escStep (d : Bool) (p : Bool) (c : Char) : Bool × List Char :=
+  if c = '\n' then (p, ['\\', 'n'])
+  else if c = '"' ∧ d = false then (false, ['\\', '"'])
+  else if c = '\\' then (if p then (false, ['\\', '\\']) else (true, []))
+  else (false, if p then ['\\', '\\', c] else [c])
+
+/-- the loop over a whole string from state `p`: final `previous_backslash` and the text pushed (without the
+    flush after the loop) -/
+def escRun (d : Bool) : Bool → List Char → Bool × List Char
+  | p, [] => (p, [])
+  | p, c :: cs => ((escRun d (escStep d p c).1 cs).1, (escStep d p c).2 ++ (escRun d (escStep d p c).1 cs).2)
+
+/-- the `if previous_backslash { push_str("\\\\") }` after the loop -/
+def escFlush (p : Bool) : List Char := if p then ['\\', '\\'] else []
+
+/-- the model's escaper IS the fold of `escStep` followed by the flush -/
+theorem escGo_eq_run (d : Bool) (s : List Char) :
+    ∀ p, escGo d p s = (escRun d p s).2 ++ escFlush (escRun d p s).1 := by
+  induction s with
+  | nil => intro p; cases p <;> simp [escGo, escRun, escFlush]
+  | cons c cs ih =>
+    intro p
+    simp only [escGo, escRun, escStep]
+    split
+    · simp [ih]
+    · split
+      · simp [ih]
+      · split
+        · cases p <;> simp [ih]
+        · cases p <;> simp [ih]
+
+/-- **transducer law** (homomorphism from concatenation of strings to composition of runs): running over
+    `a ++ b` is running over `a`, then over `b` from the state `a` left; the texts are concatenated -/
+theorem escRun_append (d : Bool) (a b : List Char) : ∀ p,
+    escRun d p (a ++ b)
+      = ((escRun d (escRun d p a).1 b).1, (escRun d p a).2 ++ (escRun d (escRun d p a).1 b).2) := by
+  induction a with
+  | nil => intro p; simp [escRun]
+  | cons c cs ih => intro p; simp [escRun, ih]
+
+/-- **length independence.**  The escape of `a ++ b` is the text the loop wrote for `a` — which does not depend
+    on `b`, nor on the length of either — followed by the escape of `b` started in the one-bit state `a` left.
+    For all strings of all lengths. -/
+theorem escape_append (d : Bool) (p : Bool) (a b : List Char) :
+    escGo d p (a ++ b) = (escRun d p a).2 ++ escGo d (escRun d p a).1 b := by
+  rw [escGo_eq_run, escGo_eq_run d b, escRun_append]
+  simp
+
+/-- what has been written for a prefix is never taken back: it is a prefix of the escape of every extension -/
+theorem escape_prefix_stable (d : Bool) (a b : List Char) :
+    (escRun d false a).2 <+: escGo d false (a ++ b) := by
+  rw [escape_append]; exact List.prefix_append _ _
+
+/-- a character the escaper copies -/
+def plainChar (c : Char) : Bool := c != '\n' && c != '"' && c != '\\'
+
+theorem escRun_plain (d : Bool) (a : List Char) (h : a.all plainChar = true) : escRun d false a = (false, a) := by
+  induction a with
+  | nil => rfl
+  | cons c cs ih =>
+    simp only [List.all_cons, Bool.and_eq_true] at h
+    have hc := h.1
+    simp only [plainChar, Bool.and_eq_true, bne_iff_ne, ne_eq] at hc
+    simp [escRun, escStep, hc.1.1, hc.1.2, hc.2, ih h.2]
+
+/-- a run of ordinary characters **of any length** is copied verbatim and leaves no state behind -/
+theorem escape_plain_run (d : Bool) (a b : List Char) (h : a.all plainChar = true) :
+    escGo d false (a ++ b) = a ++ escGo d false b := by
+  rw [escape_append, escRun_plain d a h]
+
+/-- the strings of the harness's boundary generator, for EVERY length `n` (255, 256, 1023, 1024, 65535, … and
+    all others): `n` filler characters followed by anything are the `n` filler characters followed by the escape
+    of the rest — for label values and for descriptions -/
+theorem escape_boundary (n : Nat) (f : Char) (hf : plainChar f = true) (t : List Char) :
+    sanitizeLabelValue (List.replicate n f ++ t) = List.replicate n f ++ sanitizeLabelValue t
+    ∧ sanitizeDescription (List.replicate n f ++ t) = List.replicate n f ++ sanitizeDescription t := by
+  have h : (List.replicate n f).all plainChar = true := by
+    simp only [List.all_eq_true]
+    intro x hx
+    rw [(List.mem_replicate.mp hx).2]; exact hf
+  exact ⟨escape_plain_run false _ t h, escape_plain_run true _ t h⟩
+
+/-- when no backslash is left pending at the end of `a`, escaping distributes over the concatenation -/
+theorem escape_concat (d : Bool) (a b : List Char) (h : (escRun d false a).1 = false) :
+    escGo d false (a ++ b) = escGo d false a ++ escGo d false b := by
+  rw [escape_append, escGo_eq_run d a, h]
+  simp [escFlush]
+
+/-- what the escaper writes for one character when no backslash is pending -/
+def escChar (d : Bool) (c : Char) : List Char :=
+  if c = '\n' then ['\\', 'n'] else if c = '"' ∧ d = false then ['\\', '"'] else [c]
+
+theorem escRun_noBackslash (d : Bool) (s : List Char) (h : '\\' ∉ s) :
+    escRun d false s = (false, s.flatMap (escChar d)) := by
+  induction s with
+  | nil => rfl
+  | cons c cs ih =>
+    simp only [List.mem_cons, not_or] at h
+    have hc : c ≠ '\\' := fun e => h.1 e.symm
+    have ih' := ih h.2
+    simp only [escRun, escStep, escChar, List.flatMap_cons]
+    split
+    · simp [ih', escChar]
+    · split
+      · simp [ih', escChar]
+      · simp [hc, ih', escChar]
+
+/-- **homomorphism on characters**: on strings without a backslash the escaper is the character-wise map
+    `escChar` (newline ↦ `\n`, quote ↦ `\"` in label values, anything else itself), whatever the length -/
+theorem escape_flatMap (d : Bool) (s : List Char) (h : '\\' ∉ s) : escGo d false s = s.flatMap (escChar d) := by
+  rw [escGo_eq_run, escRun_noBackslash d s h]; simp [escFlush]
+
+/-- with backslashes the character-wise statement is FALSE of the code (a pending backslash is swallowed by a
+    following quote): `\` then `"` gives `\"`, not `\\` + `\"`.  The string is in the harness corpus; the state
+    bit of `escape_append` is what the full statement needs. -/
+theorem escape_char_homomorphism_false :
+    sanitizeLabelValue (['\\'] ++ ['"']) ≠ sanitizeLabelValue ['\\'] ++ sanitizeLabelValue ['"'] := by decide
+
+theorem escGo_length (d : Bool) (s : List Char) : ∀ p,
+    s.length + (if p then 1 else 0) ≤ (escGo d p s).length
+    ∧ (escGo d p s).length ≤ 2 * s.length + (if p then 2 else 0) := by
+  induction s with
+  | nil => intro p; cases p <;> simp [escGo]
+  | cons c cs ih =>
+    intro p
+    have ht := ih true
+    have hf := ih false
+    simp only [if_true, Bool.false_eq_true, if_false] at ht hf
+    by_cases h1 : c = '\n'
+    · cases p <;> simp [escGo, h1] <;> omega
+    · by_cases h2 : c = '"' ∧ d = false
+      · obtain ⟨hc, hd⟩ := h2
+        subst hd
+        cases p <;> simp [escGo, hc] <;> omega
+      · by_cases h3 : c = '\\'
+        · cases p <;> simp [escGo, h3] <;> omega
+        · cases p <;> simp [escGo, h1, h2, h3] <;> omega
+
+/-- **nothing is cut off, at any length**: the escaped text has at least as many characters as the input and
+    at most twice as many — there is no cap on a label value or a description -/
+theorem escape_length (s : List Char) :
+    (s.length ≤ (sanitizeLabelValue s).length ∧ (sanitizeLabelValue s).length ≤ 2 * s.length)
+    ∧ (s.length ≤ (sanitizeDescription s).length ∧ (sanitizeDescription s).length ≤ 2 * s.length) := by
+  have h1 := escGo_length false s false
+  have h2 := escGo_length true s false
+  simp only [Bool.false_eq_true, if_false, Nat.add_zero] at h1 h2
+  exact ⟨h1, h2⟩
+
 /-! ## 3. an independent reader of the format reads back exactly what was meant -/
 
 /-- suffixes `write_metric_line` is called with -/
@@ -699,6 +856,22 @@ theorem src_escape_arms :
     ∧ Generated.fmt_escape_pushes = ["\"\\\\n\"", "\"\\\\\\\"\"", "\"\\\\\\\\\"", "\"\\\\\\\\\"", "\"\\\\\\\\\""] := by
   decide
 
+/-- obligation **src_escape_length_independent**: what ties `escape_append` / `escape_length` to the code at
+    lengths no run reaches.  The two public escapers only forward to the shared loop (nothing is done to its
+    result: no cap, no truncation); inside, the output buffer is only ever appended to (`push` / `push_str`) and
+    is what the function returns; no statement of the loop looks at a length, index, capacity or byte offset;
+    formatting.rs declares no constant (a limit would be one). -/
+theorem src_escape_length_independent :
+    Generated.fmt_sanitize_label_value_body = "sanitize_label_value_or_description(value, false)"
+    ∧ Generated.fmt_sanitize_description_body = "sanitize_label_value_or_description(value, true)"
+    ∧ Generated.fmt_escape_output_methods.all (fun m => m == "push" || m == "push_str") = true
+    ∧ Generated.fmt_escape_output_methods.length = 6
+    ∧ Generated.fmt_escape_loop_found = true
+    ∧ Generated.fmt_escape_loop_length_words = []
+    ∧ Generated.fmt_escape_returns_buffer = true
+    ∧ Generated.fmt_consts = [] := by
+  decide
+
 /-- obligation **src_unit_table**: `Unit::as_str` is the table `MUnit.asStr` in declaration order, and the
     unit arms of `write_metric_line` and of `family_name` are those of `unitSuffix`
     (`Count`/`None` nothing, `Percent` `_ratio`, otherwise `_` + `as_str`) -/
@@ -732,6 +905,18 @@ example : ReadsBack (.sample "a_b".toList (some "bucket".toList) [formatLabel "k
          exact ⟨label_key_grammar "k²".toList (by decide), escape_wf_value _⟩⟩,
     by intro kt h; cases h; exact ⟨by decide, wf_of_safe (by decide)⟩, by decide⟩
 
+
+/-- the seed-C08-6 shape: 1023 plain characters and a quote — the escape pair is complete -/
+example : sanitizeLabelValue (List.replicate 1023 'a' ++ ['"', 'b'])
+    = List.replicate 1023 'a' ++ ['\\', '"', 'b'] := by
+  rw [(escape_boundary 1023 'a' (by decide) ['"', 'b']).1]; rfl
+
+example : sanitizeDescription (List.replicate 65535 'é' ++ ['\\', '\n'])
+    = List.replicate 65535 'é' ++ ['\\', 'n', '\\', '\\'] := by
+  rw [(escape_boundary 65535 'é' (by decide) ['\\', '\n']).2]; rfl
+
+example : escRun false false ['a', '\\'] = (true, ['a']) ∧ escRun false true ['"', '\n'] = (false, ['\\', '"', '\\', 'n']) := by
+  decide
 
 example : parseSample (writeMetricLine (sanitizeMetricName "9lat{ency\n".toList) (some "bucket".toList)
       [formatLabel "a\"b".toList "x\"} 1\n# TYPE evil counter\\".toList] (some ("le".toList, "0.5".toList))
